@@ -11,6 +11,8 @@ def keys (s : Saved) : List Group := s.map (·.1)
 /-- no `Enable` among the operations -/
 def NoEnable (ops : List Op) : Prop := ops.any Op.isEnable = false
 
+instance (ops : List Op) : Decidable (NoEnable ops) := by unfold NoEnable; infer_instance
+
 theorem noEnable_cons {op : Op} {ops : List Op} (h : NoEnable (op :: ops)) :
     op.isEnable = false ∧ NoEnable ops := by
   simpa [NoEnable] using h
@@ -22,7 +24,7 @@ theorem keys_del (g : Group) (s : Saved) : keys (del g s) = (keys s).filter (· 
   | nil => rfl
   | cons p t ih =>
     simp only [del, keys] at ih ⊢
-    by_cases h : p.1 = g <;> simp [List.filter_cons, h, ih]
+    by_cases h : p.1 = g <;> simp [h, ih]
 
 theorem not_mem_keys_del (g : Group) (s : Saved) : g ∉ keys (del g s) := by
   simp [keys_del]
@@ -48,7 +50,7 @@ theorem del_eq_self {g : Group} {s : Saved} (h : g ∉ keys s) : del g s = s := 
       simp only [bne_iff_ne, ne_eq]
       exact fun e => h.1 e.symm
     simp only [del] at ht ⊢
-    rw [List.filter_cons_of_pos hne, ht]
+    simp [hne, ht]
 
 theorem get_none_of_not_mem {g : Group} {s : Saved} (h : g ∉ keys s) : get g s = none := by
   induction s with
@@ -74,14 +76,14 @@ theorem get_some_perm {g : Group} {r : List Req} {s : Saved} (hn : (keys s).Nodu
       have : del k ((k, v) :: t) = t := by
         have ht : del k t = t := del_eq_self (by simpa [keys] using hn.1)
         simp only [del] at ht ⊢
-        rw [List.filter_cons_of_neg (by simp), ht]
+        simp [ht]
       rw [this]
     · simp only [get, hk, if_false] at hg
       have ih' := ih (by simpa [keys] using hn.2) hg
       have hne : ((k, v).1 != g) = true := by simpa using hk
       have : del g ((k, v) :: t) = (k, v) :: del g t := by
         simp only [del]
-        rw [List.filter_cons_of_pos hne]
+        simp [hne]
       rw [this]
       exact (List.Perm.cons _ ih').trans (List.Perm.swap _ _ _)
 
@@ -154,8 +156,11 @@ theorem filter_del_superseded (g : Group) (r : List Req) (rest : List Op) (sv : 
   rw [superseded_cons_update]
   by_cases h : p.1 = g
   · simp [h]
-  · have : ¬ g = p.1 := fun e => h e.symm
-    simp [h, this]
+  · have e1 : (p.1 != g) = true := by simpa using h
+    have e2 : (g == p.1) = false := by
+      simp only [beq_eq_false_iff_ne, ne_eq]
+      exact fun e => h e.symm
+    cases superseded p.1 rest <;> simp [e1, e2]
 
 /-- Before `Enable`: nothing is written, the replica stays disabled, the map keeps one entry per group
 and holds exactly the not-superseded old entries plus `latest` of the new submissions. -/
@@ -166,7 +171,9 @@ theorem disabled_exec : ∀ (pre : List Op) (s : LState), s.enabled = false → 
     (exec s pre).saved.Perm (s.saved.filter (fun p => !superseded p.1 pre) ++ latest pre)
   | [], s, he, _, hn => by
     refine ⟨he, hn, rfl, ?_⟩
-    simp [exec, superseded, latest]
+    have : s.saved.filter (fun p => !superseded p.1 []) = s.saved :=
+      List.filter_eq_self.2 (by simp [superseded])
+    simp [exec, latest, this]
   | .enable o :: rest, _, _, hp, _ => by
     have := (noEnable_cons hp).1
     simp [Op.isEnable] at this
@@ -187,7 +194,8 @@ theorem disabled_exec : ∀ (pre : List Op) (s : LState), s.enabled = false → 
     · -- an empty submission clears the entry and contributes nothing
       simp only [sv', hr, if_true, latest, Bool.or_true]
       rw [filter_del_superseded g r rest s.saved]
-    · simp only [sv', hr, if_false, put, Bool.or_false, latest]
+    · have hr' : r.isEmpty = false := by simpa using hr
+      simp only [sv', hr', Bool.false_eq_true, if_false, put, Bool.or_false, latest]
       by_cases hs : superseded g rest = true
       · rw [List.filter_cons_of_neg (by simp [hs])]
         rw [filter_del_superseded g r rest s.saved]
@@ -232,5 +240,17 @@ theorem latest_keys_nodup : ∀ (ops : List Op), (keys (latest ops)).Nodup
       simp only at hg
       subst hg
       exact hc.1 (superseded_of_mem_latest hm')
+
+theorem allWrites_nothing (pre : List Op) :
+    allWrites (pre.map (fun _ => Out.writes [])) = [] := by
+  induction pre with
+  | nil => rfl
+  | cons _ t ih => simp [allWrites]
+
+theorem allWrites_after (post : List Op) : allWrites (post.map after) = submissions post := by
+  induction post with
+  | nil => rfl
+  | cons op t ih =>
+    cases op <;> simp_all [allWrites, submissions, after]
 
 end NGF.Leader
